@@ -50,6 +50,12 @@ CHECKS["C03"] = {
     "note": "By-reference is judged as copy-in/copy-out with left-to-right write-back (the property's wording); by-reference arguments with side-effecting subscripts, array parameters and record parameters are not generated.",
     "design": "DESIGN.md section 2 C03",
 }
+CHECKS["C05"] = {
+    "technique": "runtime monitoring: generated jump/handler programs in which every statement prints a unique trace token are run by the real code; the printed control-flow history, ERR values, variable values after RESUME and the final outcome are judged by the reference control semantics; context invariants walked at every statement boundary",
+    "text": "Label/jump layouts in the main module: GOSUB nesting incl. RETURN label and RETURN without GOSUB, backward GOTOs, GOTO out of 1-3 nested FOR/WHILE/DO loops with distinct bounds and steps (landing inside an enclosing loop or outside), failing statements of every kind at first/middle/last position of FOR, WHILE, IF, ELSEIF and CASE blocks, inside GOSUB subroutines, inside a called SUB and inside a FUNCTION called in an expression, under every handler form (RESUME, RESUME NEXT, RESUME label, ON ERROR RESUME NEXT, ON ERROR GOTO 0, none) enabled and disabled in every order.",
+    "note": "Not generated because the property does not define them: a failing expression in a block header under an active handler, an error raised by the handler itself, RESUME label after an error inside a procedure. Handlers repair the cause before a plain RESUME.",
+    "design": "DESIGN.md section 2 C05",
+}
 CHECKS["C06"] = {
     "technique": "runtime monitoring: slot-invariant hook that walks every live memory block at every statement boundary (variant tag vs declared type, value range), plus reference prediction of stored value or Overflow for every generated statement; repeated on the plain release build",
     "text": "Exhaustive over the boundary set of each numeric type x each target type x every route into a variable (assignment, by-value and by-ref parameter, SHARED variable in a SUB, FOR initial value/limit/increment, READ, INPUT from console and file, function result, array element, record field, CONST with suffix) and every arithmetic operator on all boundary pairs; random in-range values. The monitor observed every scalar slot (variables, array elements, record fields, parameters, counters) at every statement boundary of every run.",
